@@ -1423,3 +1423,138 @@ func listLookups(p *load.Prog, r *oblig.Run, rule string, root *ssa.Function, re
 		r.Add(rule, "lookups", "-", "list lookups used by the pipeline").Unknown("the pipeline calls no lookup on a list of individuals")
 	}
 }
+
+// winnerSends (R11.m): the selection stage emits a one-to-one matching. Every send on the channel that
+// calculateWinners returns is reached only on paths that established (facts on every path, edge cut):
+//   - for a comparison taken from the results: it is a certain match, or its weighted similarity is not below the
+//     configured minimum AND neither its Left nor its Right individual is marked as already matched;
+//   - for a one-sided comparison made for a left-over individual: that individual is not marked;
+// and after a two-sided comparison was sent both its individuals are marked in the same block.
+func winnerSends(p *load.Prog, r *oblig.Run, rule string) {
+	r.Rule(rule, "calculateWinners sends a pair only if it is certain or (not below the minimum and both sides still unmatched), marks both sides after sending, and sends a left-over individual only if unmarked", 3)
+	cw := p.Method(load.PkgRoot, "IndividualNodesCompareOptions", "calculateWinners")
+	if cw == nil {
+		r.Add(rule, "anchor", "-", "anchor").Unknown("calculateWinners not found")
+		return
+	}
+	n := 0
+	for _, fn := range append([]*ssa.Function{cw}, allAnon(cw)...) {
+		env := &descEnv{p: p, params: map[*ssa.Parameter]string{}, noInline: true}
+		for _, b := range fn.Blocks {
+			for idx, ins := range b.Instrs {
+				snd, ok := ins.(*ssa.Send)
+				if !ok {
+					continue
+				}
+				n++
+				o := r.Add(rule, fmt.Sprintf("send #%d in %s", n, load.FuncName(fn)), p.Pos(snd.Pos()), "condition of a send on the winners channel")
+				v := snd.X
+				// a comparison built here for one individual?
+				if al, isAl := v.(*ssa.Alloc); isAl {
+					var who []string
+					for _, ref := range *al.Referrers() {
+						if fa, ok := ref.(*ssa.FieldAddr); ok {
+							for _, r2 := range *fa.Referrers() {
+								if st, ok := r2.(*ssa.Store); ok && st.Addr == ssa.Value(fa) {
+									who = append(who, env.desc(st.Val, 0))
+								}
+							}
+						}
+					}
+					if len(who) != 1 {
+						o.Fail("a comparison built in calculateWinners holds " + fmt.Sprint(len(who)) + " individuals: left-over individuals are reported one-sided")
+						continue
+					}
+					x := who[0]
+					if env.holdsAny(b, func(f cfact) bool {
+						return (strings.HasPrefix(f.atom, "lookup(") && strings.HasSuffix(f.atom, ","+x+")") && !f.val) ||
+							(strings.HasPrefix(f.atom, "lookup(") && strings.Contains(f.atom, ","+x+")==true") && !f.val)
+					}) {
+						o.OK("the left-over individual is sent only when it is not marked as matched")
+					} else {
+						o.Fail("a one-sided comparison for " + x + " is sent on a path that did not find that individual unmarked: an individual that already has a partner is reported a second time (the result is not a one-to-one matching)")
+					}
+					continue
+				}
+				// marks after the send (in this block)
+				marked := map[string]bool{}
+				for _, later := range b.Instrs[idx+1:] {
+					if mu, ok := later.(*ssa.MapUpdate); ok {
+						if k, isK := mu.Value.(*ssa.Const); isK && k.Value != nil && k.Value.ExactString() == "true" {
+							marked[env.desc(mu.Key, 0)] = true
+						}
+					}
+				}
+				d := env.desc(v, 0)
+				if !marked[d+".Left"] || !marked[d+".Right"] {
+					o.Fail("after a pair was sent its two individuals are not both marked as matched in the same step: a later pair can use one of them again (not one-to-one), or it is reported once more as a left-over")
+					continue
+				}
+				decide := func(e2 *descEnv, blk *ssa.BasicBlock, d string) []string {
+					certain := e2.holdsAny(blk, func(f cfact) bool { return f.val && f.atom == d+".certainMatch" })
+					if certain {
+						return nil
+					}
+					notBelow := e2.holdsAny(blk, func(f cfact) bool {
+						return !f.val && strings.HasPrefix(f.atom, "SurroundingSimilarity.WeightedSimilarity("+d+".Similarity)<") && strings.HasSuffix(f.atom, ".MinimumWeightedSimilarity")
+					})
+					free := func(side string) bool {
+						return e2.holdsAny(blk, func(f cfact) bool {
+							return !f.val && strings.HasPrefix(f.atom, "lookup(") && (strings.HasSuffix(f.atom, ","+d+"."+side+")") || strings.HasSuffix(f.atom, ","+d+"."+side+")==true")) ||
+								!f.val && strings.HasPrefix(f.atom, "true==lookup(") && strings.HasSuffix(f.atom, ","+d+"."+side+")")
+						})
+					}
+					var why []string
+					if !notBelow {
+						why = append(why, "its weighted similarity was not compared with MinimumWeightedSimilarity")
+					}
+					if !free("Left") {
+						why = append(why, "its Left individual was not found unmatched")
+					}
+					if !free("Right") {
+						why = append(why, "its Right individual was not found unmatched")
+					}
+					return why
+				}
+				var why []string
+				where := ""
+				if prm, isPrm := v.(*ssa.Parameter); isPrm {
+					// a send-and-mark helper: the condition is established where the helper is called
+					pi := -1
+					for i, q := range fn.Params {
+						if q == prm {
+							pi = i
+						}
+					}
+					calls := 0
+					for _, caller := range append([]*ssa.Function{cw}, allAnon(cw)...) {
+						for _, cs := range su.Calls(caller) {
+							if cs.Common().StaticCallee() != fn || pi >= len(cs.Common().Args) {
+								continue
+							}
+							calls++
+							e2 := &descEnv{p: p, params: map[*ssa.Parameter]string{}, noInline: true}
+							if w := decide(e2, cs.Block(), e2.desc(cs.Common().Args[pi], 0)); len(w) > 0 {
+								why, where = w, " (call at "+p.Pos(cs.Pos())+")"
+							}
+						}
+					}
+					if calls == 0 {
+						o.Unknown("the send helper has no static call site")
+						continue
+					}
+				} else {
+					why = decide(env, b, d)
+				}
+				if len(why) > 0 {
+					o.Fail("a comparison is sent as a winner on a path on which it is neither a certain match nor accepted (" + strings.Join(why, "; ") + ")" + where + ": pairs below the configured minimum are matched, or an individual gets two partners")
+				} else {
+					o.OK("certain, or not below the minimum with both sides unmatched; both sides marked after the send")
+				}
+			}
+		}
+	}
+	if n == 0 {
+		r.Add(rule, "sends", p.Pos(cw.Pos()), "anchor").Unknown("calculateWinners sends nothing")
+	}
+}
